@@ -305,8 +305,7 @@ def rule_r5(ctx, rid="C01.R5"):
     ctx.r.floor(rid, n_sites, 2, "strip-family calls on client bytes")
 
 
-def rule_r6(ctx):
-    rid = "C01.R6"
+def rule_r6(ctx, rid="C01.R6"):
     ctx.r.rule(rid, "Content-Length together with chunked: the Content-Length is removed from the map and the parser's close verdict is set")
     f, g = _parse_header(ctx)
     store = [n for n in g.nodes if n.kind == "stmt" and isinstance(n.ast, ast.Assign) and any(dotted(t) == "self.chunked" for t in n.ast.targets)]
@@ -339,7 +338,8 @@ def rule_r6(ctx):
         if var is None:
             # the test that contains the pop is itself the node n: keep the guards made of that very test
             gs = [(norm(t), pol) for (t, pol) in guards_of(g, m) if any(x is c or getattr(x, "_orig", None) is getattr(c, "_orig", c) for x in ast.walk(t))]
-        if gs in ([("%s is not None" % what, True)], [("%s is None" % what, False)], [(what, True)], [] if var is not None else None):
+        # presence, not truthiness: a `Content-Length:` with an empty value is a Content-Length all the same
+        if gs in ([("%s is not None" % what, True)], [("%s is None" % what, False)], [] if var is not None else None):
             ok = True
     if ok:
         ctx.r.ok(rid, "close verdict set whenever a Content-Length accompanied Transfer-Encoding", f.loc(cc[0].ast))
@@ -541,7 +541,18 @@ def rule_r15(ctx):
     c11.rule_r2(ctx, rid="C01.R15")
 
 
-RULES = [rule_r1, rule_r2, rule_r3, rule_r4, rule_r5, rule_r6, rule_r7, rule_r8, rule_r9, rule_r10, rule_r11, rule_r12, rule_r13, rule_r14, rule_r15]
+def rule_r16(ctx):
+    """Shared with C17.R1-R4: 'the requests handed to the application (... body bytes) are exactly the messages' - the framed
+    body is kept in the receivers' buffer until the application reads it, so it is the framed bytes only if that buffer is
+    a faithful queue, also across the spill to a temporary file."""
+    from . import c17
+    c17.rule_r1(ctx, rid="C01.R16")
+    c17.rule_r2(ctx, rid="C01.R16")
+    c17.rule_r3(ctx, rid="C01.R16")
+    c17.rule_r4(ctx, rid="C01.R16")
+
+
+RULES = [rule_r1, rule_r2, rule_r3, rule_r4, rule_r5, rule_r6, rule_r7, rule_r8, rule_r9, rule_r10, rule_r11, rule_r12, rule_r13, rule_r14, rule_r15, rule_r16]
 
 from ..selftest import M, T, V  # noqa: E402
 
